@@ -390,11 +390,6 @@ func runC09(cfg *common.Config, rec *common.Recorder) {
 			rec.AbortBatch(i + 1)
 		}
 	}
-	for s, n := range yieldSiteHits {
-		if v := atomic.LoadInt64(&n); v > 0 {
-			_ = s
-		}
-	}
 	reportYieldSites(rec)
 	rec.Finish()
 }
